@@ -357,6 +357,9 @@ def gen_fit(draw, tier="quick", mode="iso", kind="recover"):
         )
     )
     cls, dim = spec["cls"], spec["dim"]
+    if wild and draw(st.integers(0, 3)) == 0:
+        # rescale factors far from one (any positive factor is a valid unit convention of the length scale)
+        spec["rescale"] = draw(st.sampled_from([6.0, 12.0, 25.0, 0.05]))
     truth = {"cls": cls, "dim": dim, "var": spec["var"], "rescale": spec["rescale"], "angles": spec["angles"]}
     truth["nugget"] = draw(st.one_of(st.just(0.0), st.just(0.0), logfloat(0.02, 2.0).map(lambda f: f * spec["var"])))
     extra = {}
@@ -989,8 +992,32 @@ def check_fit(case, rec):
             consistent = False
     near, far10 = True, False
     starts = {}
+
+    def _bounds_default(b):
+        lo_, hi_ = float(b[0]), float(b[1])
+        if math.isfinite(lo_) and math.isfinite(hi_):
+            return 0.5 * (lo_ + hi_)
+        if math.isfinite(lo_):
+            return lo_ + 1.0
+        if math.isfinite(hi_):
+            return hi_ - 1.0
+        return 0.0
+
+    def _default_rule(nm):
+        """Documented 'default' start: correlation length = mean bin centre (len_scale = mean(x) * rescale), var and nugget = mean of the
+        variogram values, everything else the default value of its bounds."""
+        if plan["sill"] is not None:
+            return None
+        if nm == "len_scale":
+            return float(np.mean(x)) * float(truth.get("rescale") or dr)
+        if nm in ("var", "nugget"):
+            return float(np.mean(y))
+        return _bounds_default(bnd[nm])
+
     for nm in free:
         s0 = _start_of(case, nm, pre)
+        if s0 is None:
+            s0 = _default_rule(nm)
         starts[nm] = s0
         lo, hi, _ty = bnd[nm]
         if nm == "var" and plan["var_cap"] is not None:
@@ -1004,6 +1031,8 @@ def check_fit(case, rec):
         far10 |= d >= 0.1
     if anis_fit:
         a0 = _start_of(case, "anis", pre)
+        if a0 is None and plan["sill"] is None:
+            a0 = [_bounds_default(bnd["anis"])] * (dim - 1)
         lo, hi, _ty = bnd["anis"]
         if a0 is None:
             near, far10 = False, True
@@ -1028,6 +1057,8 @@ def check_fit(case, rec):
             sv_[nm] = float(starts[nm])
         if anis_fit:
             a0 = _start_of(case, "anis", pre)
+            if a0 is None and plan["sill"] is None:
+                a0 = [_bounds_default(bnd["anis"])] * (dim - 1)
             lo, hi, _ty = bnd["anis"]
             if a0 is None or not all(_strictly_inside(a, lo, hi) for a in a0):
                 ok = False
